@@ -422,7 +422,7 @@ def r10(c):
     c.count("functions")
     gm = GuardMap(fn)
     comp = [n for n in walk_no_nested(fn) if isinstance(n, ast.Assign) and isinstance(n.value, ast.Call) and call_name(n.value).split(".")[-1] == "compile_acl_text"
-            and "acl_text" in norm(n.value) and "safe" not in norm(n.targets[0])]
+            and "acl_text" in norm(n.value) and "_safe" not in norm(n.targets[0])]
     if not comp:
         raise AnchorError("_old_new_per_device: compilation of the combined ACL (compile_acl_text(res.acl_text(), ...)) not found")
     st = comp[0]
